@@ -512,7 +512,7 @@ Section Algebra.
              if is_comma t then
                Ok (if empty_or_trailing c' then c'
                    else {| cv_fields := cv_fields c'; cv_tys := cv_tys c'; cv_trailing := true |}, r')
-             else Ok (c', r)
+             else Err EParse          (* into.rs:364 "expected `,`" (fix 4f1b004) *)
          | [] => Ok (c', r)
          end).
 
@@ -1121,3 +1121,18 @@ Definition I_debug_attrs := debug_attrs tt_ty simple_pred simple_fmt_args.
 
 (** verdict + class only (what the tie compares) *)
 Definition verdict {A} (r : res A) : option err := match r with Ok _ => None | Err e => Some e end.
+
+(* ================================================================== growth round: results that reach the expansion *)
+
+(** fmt/display.rs:489-503 `generate_body`: the name literal of a struct / variant (the only place where
+    `rename_all` is used) is produced iff it has no literal of its own and no field *)
+Definition display_uses_rename (has_fmt : bool) (nfields : nat) : bool := negb has_fmt && Nat.eqb nfields 0.
+
+(** what the tie reads back: explicit bounds of a Display-family / Debug item, enabled variants of an
+    enum-only legacy derive *)
+Definition I_display_bounds (name : N) (it : item) : option (list tt_ty) :=
+  match I_display_attrs name it with Ok (_, _, bs) => Some bs | Err _ => None end.
+Definition I_debug_bounds (it : item) : option (list tt_ty) :=
+  match I_debug_attrs it with Ok (_, bs) => Some bs | Err _ => None end.
+Definition enabled_count (r : res lstate) : option nat :=
+  match r with Ok st => Some (count_enabled (ls_infos st)) | Err _ => None end.
